@@ -23,6 +23,7 @@ RULE = ('1-D time-series files built through the public API: 1-200 records, '
         'editing units on the file read back; plus the bundled sample '
         '(space-delimited, real header comments) cycled twice. non-trivial = >= 2 '
         'records or a masked cell; distinct = digest of the spec.')
+RULE += (' Also: integer time column, units with parentheses, an output path that earlier held a file of another format.')
 ASSUMPTIONS = [
     'files carry one missing code per variable (fill_value == missing_value)',
     'values are compared to 7 significant digits (the %.6e text form)',
